@@ -77,8 +77,9 @@ def audit(repo):
     find1(r"empty_\.wait_for\s*\(\s*lock\s*,\s*timeout\s*\)\s*==\s*std::cv_status::timeout", g, "get: wait_for(lock, timeout)")
     find1(r"empty_\.wait_until\s*\(\s*lock\s*,\s*when\s*\)\s*==\s*std::cv_status::timeout", bodies["get_until"], "get_until: wait_until(lock, when)")
     c = bodies["close"]
-    res["close_notify_all_full"] = bool(re.search(r"full_\.notify_all\s*\(\s*\)", c))
-    res["close_notify_all_empty"] = bool(re.search(r"empty_\.notify_all\s*\(\s*\)", c))
+    # the notification must be an unconditional statement of close(): directly preceded by ';', '{' or '}' (not by an if (...) or other guard)
+    res["close_notify_all_full"] = bool(re.search(r"(?:^|[;{}])\s*full_\.notify_all\s*\(\s*\)\s*;", c))
+    res["close_notify_all_empty"] = bool(re.search(r"(?:^|[;{}])\s*empty_\.notify_all\s*\(\s*\)\s*;", c))
     if not re.search(r"full_\.notify_(?:all|one)\s*\(\s*\)", c) or not re.search(r"empty_\.notify_(?:all|one)\s*\(\s*\)", c):
         raise AnchorError("queue::close: notification of full_/empty_ not found")
     find1(r"state_\s*=\s*\(\s*queue_\.empty\(\)\s*\?\s*State::CLOSED\s*:\s*State::CLOSING\s*\)\s*;", c, "close: state write")
